@@ -44,11 +44,15 @@ pub struct ConcDesc {
     /// scenario "stringbuf": per thread (push?, token number)
     #[serde(default)]
     pub sb_ops: Vec<Vec<(bool, u64)>>,
+    /// (caller thread, operation index, k): that operation is single-stepped and preempted after
+    /// exactly k instructions of code under test
+    #[serde(default)]
+    pub fine: Option<(usize, usize, u64)>,
     #[serde(default)]
     pub schedule: Option<Vec<u8>>,
 }
 
-pub const FN_NAMES: [&str; 17] = ["a1", "s1", "o1", "r1", "e1", "l1", "l2", "c1", "h1", "re1", "fm", "sb1", "cx", "cs", "b1", "g1", "fm2"];
+pub const FN_NAMES: [&str; 18] = ["a1", "s1", "o1", "r1", "e1", "l1", "l2", "c1", "h1", "re1", "fm", "sb1", "cx", "cs", "b1", "g1", "fm2", "d1"];
 
 /// Context type of the second runtime: every call brings its own context.
 #[derive(Clone, Context)]
@@ -107,6 +111,8 @@ thread_local! {
 static REENTER: Mutex<Option<Arc<Sendable<Fx>>>> = Mutex::new(None);
 /// handle of `re1` itself: the host function re-enters the function that called it
 static REENTER_SELF: Mutex<Option<Arc<Sendable<Fx>>>> = Mutex::new(None);
+/// handle of `d1`: deep host <-> script recursion (one level per unit of the argument)
+static REENTER_DEEP: Mutex<Option<Arc<Sendable<Fx>>>> = Mutex::new(None);
 static P_REENTER_DEPTH: AtomicU64 = AtomicU64::new(0);
 static IN_CALL: AtomicI64 = AtomicI64::new(0);
 static P_CALLS_OVERLAPPED: AtomicU64 = AtomicU64::new(0);
@@ -166,6 +172,17 @@ fn main_runtime() -> Runtime<NoCtx> {
             };
             host("bigval", p);
             p
+        }
+        fn deeper(x: u64) -> u64 {
+            host("deeper", x);
+            let f = { REENTER_DEEP.lock().unwrap().clone() };
+            match f {
+                Some(f) if x > 0 => match f.0.call(x - 1) {
+                    CallRes::Num(n) => n,
+                    _ => 0,
+                },
+                _ => 0,
+            }
         }
         fn reenter(x: u64) -> u64 {
             host("reenter", x);
@@ -278,6 +295,9 @@ fn g1(x: u64) -> u64 {{
 filtermap fm2(x: u64) {{
     if x > {p2} {{ accept "big" }} else {{ reject x + 1 }}
 }}
+fn d1(x: u64) -> u64 {{
+    if x == 0 {{ 0 }} else {{ deeper(x) + 1 }}
+}}
 fn sb1(a: String, x: u64) -> String {{
     let b = StringBuf.new();
     b.push_string(a);
@@ -349,7 +369,7 @@ fn load(pkg: &mut Package<NoCtx>, pkg2: &mut Package<Ctx<CallCtx>>) -> Result<Ve
         let fx = match i {
             12 => pkg2.get_function(n).map(Fx::CU).map_err(|e| e.to_string()),
             13 => pkg2.get_function(n).map(Fx::CS).map_err(|e| e.to_string()),
-            0 | 5 | 7 | 8 | 9 | 15 => pkg.get_function(n).map(Fx::U).map_err(|e| e.to_string()),
+            0 | 5 | 7 | 8 | 9 | 15 | 17 => pkg.get_function(n).map(Fx::U).map_err(|e| e.to_string()),
             16 => pkg.get_function(n).map(Fx::V2).map_err(|e| e.to_string()),
             3 | 4 | 6 => pkg.get_function(n).map(Fx::TU).map_err(|e| e.to_string()),
             1 | 11 | 14 => pkg.get_function(n).map(Fx::S).map_err(|e| e.to_string()),
@@ -421,6 +441,35 @@ pub fn generate_stringbuf(run_seed: u64, thorough: bool) -> ConcDesc {
         callers: vec![],
         compilers: vec![],
         sb_ops,
+        fine: None,
+        schedule: None,
+    }
+}
+
+/// Sub-scenario "call-race": two threads call the *same* function through the *same* handle
+/// object; thread 0's first call is preempted after exactly k instructions (k uniform, so
+/// successive runs sweep the instruction positions of the call path, including the few
+/// instructions between the generated code's last write and the caller's read of the result).
+pub fn generate_call_race(run_seed: u64) -> ConcDesc {
+    let mut r = Rng::new(rng::derive(run_seed, &[rng::label("call-race")]));
+    let params: Vec<u64> = vec![2 + r.below(9), 3 + r.below(40), 20 + r.below(400), 1 + r.below(99), r.below(1000), r.below(50)];
+    // functions that return through an out-pointer (String, Option, Verdict) or take large values
+    let f = *r.pick(&[1usize, 2, 10, 16, 13, 14, 11, 15, 3]);
+    let callers = vec![
+        vec![ConcOp::Call { f, x: r.below(60) }, ConcOp::Call { f, x: r.below(60) }],
+        vec![ConcOp::Call { f, x: r.below(60) }, ConcOp::Call { f, x: r.below(60) }],
+    ];
+    ConcDesc {
+        property: "C12".into(),
+        scenario: "call-race".into(),
+        run_seed,
+        strategy: "sticky95".into(),
+        sched_seed: rng::derive(run_seed, &[rng::label("schedule")]),
+        params,
+        callers,
+        compilers: vec![],
+        sb_ops: vec![],
+        fine: Some((0, 0, 1 + r.below(2500))),
         schedule: None,
     }
 }
@@ -481,6 +530,7 @@ pub fn generate(run_seed: u64, thorough: bool, cold_race: bool) -> ConcDesc {
         callers,
         compilers,
         sb_ops: vec![],
+        fine: None,
         schedule: None,
     }
 }
@@ -814,6 +864,7 @@ pub fn execute(d: &ConcDesc, keep_trace: bool) -> RunResult {
             if !viol::any() {
                 *REENTER.lock().unwrap() = Some(fns[0].clone());
                 *REENTER_SELF.lock().unwrap() = Some(fns[9].clone());
+                *REENTER_DEEP.lock().unwrap() = Some(fns[17].clone());
                 // the same call executed alone: the reference for the differential oracle
                 tracked::set_log(true);
                 for ops in &d.callers {
@@ -850,6 +901,7 @@ pub fn execute(d: &ConcDesc, keep_trace: bool) -> RunResult {
                                 Ok(f) => {
                                     *REENTER.lock().unwrap() = Some(f[0].clone());
                                     *REENTER_SELF.lock().unwrap() = Some(f[9].clone());
+                                    *REENTER_DEEP.lock().unwrap() = Some(f[17].clone());
                                     fns = f;
                                     *shared.lock().unwrap() = (Some(rts), Some(Sendable((pkg, pkg2))));
                                     fresh_pkg = true;
@@ -866,7 +918,8 @@ pub fn execute(d: &ConcDesc, keep_trace: bool) -> RunResult {
         if !viol::any() {
             let solo = Arc::new(solo);
             let mut bodies: Vec<sched::Body> = Vec::new();
-            for ops in &d.callers {
+            let fine = d.fine;
+            for (ct, ops) in d.callers.iter().enumerate() {
                 let ops = ops.clone();
                 n_calls += ops.iter().filter(|o| matches!(o, ConcOp::Call { .. })).count() as u64;
                 let mut locals: Vec<Local> = fns.iter().map(|f| Local::Shared(f.clone())).collect();
@@ -874,7 +927,11 @@ pub fn execute(d: &ConcDesc, keep_trace: bool) -> RunResult {
                 let shared = shared.clone();
                 bodies.push(Box::new(move || {
                     let me = sched::tid();
-                    for op in &ops {
+                    for (oi, op) in ops.iter().enumerate() {
+                        let window = match fine {
+                            Some((ft, fi, k)) if ft == ct && fi == oi => k,
+                            _ => 0,
+                        };
                         {
                             let _pg = alloc::ModeGuard::new(alloc::MODE_PLAIN);
                             sched::set_label(match op {
@@ -898,7 +955,7 @@ pub fn execute(d: &ConcDesc, keep_trace: bool) -> RunResult {
                                 if IN_CALL.fetch_add(1, SeqCst) > 0 {
                                     P_CALLS_OVERLAPPED.fetch_add(1, SeqCst);
                                 }
-                                let r = fx.call(*x);
+                                let r = sched::fine_window(window, || fx.call(*x));
                                 IN_CALL.fetch_sub(1, SeqCst);
                                 let hl = take_hostlog();
                                 let ms = multiset(tracked::take_log_for(me));
@@ -968,6 +1025,7 @@ pub fn execute(d: &ConcDesc, keep_trace: bool) -> RunResult {
             let _rg = alloc::ModeGuard::new(alloc::MODE_RUN);
             *REENTER.lock().unwrap() = None;
             *REENTER_SELF.lock().unwrap() = None;
+            *REENTER_DEEP.lock().unwrap() = None;
             drop(fns);
             let s = std::mem::take(&mut *shared.lock().unwrap());
             drop(s);
@@ -1007,6 +1065,8 @@ pub fn execute(d: &ConcDesc, keep_trace: bool) -> RunResult {
     c.insert("lock_contended".into(), out.contended);
     c.insert(format!("strategy_{}", d.strategy.split('/').next().unwrap_or("")), 1);
     c.insert("calls_under_simulation".into(), n_calls);
+    c.insert("fine_window_configured".into(), d.fine.is_some() as u64);
+    c.insert("fine_window_preemptions_fired".into(), sched::FINE_FIRED.load(SeqCst));
     c.insert("solo_reference_calls".into(), n_solo);
     c.insert("runs_with_fresh_package_for_the_threads".into(), fresh_pkg as u64);
     c.insert("background_compile_threads".into(), if d.scenario == "calls" { d.compilers.len() as u64 } else { 0 });
